@@ -46,6 +46,7 @@ pub struct Shared {
     pub acked_features: Vec<u64>,
     pub event_idx: Vec<bool>,
     pub backend_reqs: u64,
+    pub beq: Option<vhost::vhost_user::Backend>,
     pub cmds: HashMap<usize, Cmd>,    // per worker thread
     pub done: Option<Sender<Val>>,
     pub exit_consumers: HashMap<usize, EventConsumer>,
@@ -160,8 +161,10 @@ impl<V: VringT<GM> + Clone + Send + Sync + 'static> VhostUserBackendMut for Tb<V
         s.update_memory_calls += 1;
         Ok(())
     }
-    fn set_backend_req_fd(&mut self, _backend: vhost::vhost_user::Backend) {
-        self.sh.lock().unwrap().backend_reqs += 1;
+    fn set_backend_req_fd(&mut self, backend: vhost::vhost_user::Backend) {
+        let mut s = self.sh.lock().unwrap();
+        s.backend_reqs += 1;
+        s.beq = Some(backend);
     }
     fn queues_per_thread(&self) -> Vec<u64> {
         self.masks.clone()
@@ -216,6 +219,7 @@ struct Run<V: VringT<GM> + Clone + Send + Sync + 'static> {
     nq: usize,
     listener_fds: HashMap<(usize, u64), EventFd>,
     panics0: u64,
+    beq_ends: Option<(UnixStream, UnixStream)>,
 }
 
 fn vres(r: vhost::Result<()>) -> Val {
@@ -435,6 +439,56 @@ impl<V: VringT<GM> + Clone + Send + Sync + 'static> Run<V> {
                 }
                 None => Val::s("no-listener"),
             },
+            "set_backend_req" => {
+                let (a, b) = UnixStream::pair().unwrap();
+                let r = vres(self.fe.set_backend_request_fd(&a));
+                self.beq_ends = Some((a, b));
+                r
+            }
+            "proxy_probe" => {
+                use std::io::{Read, Write};
+                use vhost::vhost_user::VhostUserFrontendReqHandler;
+                let be = self.sh.lock().unwrap().beq.clone();
+                match (be, self.beq_ends.as_mut()) {
+                    (Some(be), Some((ours, peer))) => {
+                        let code: u32 = if g(0) == 0 { 6 } else { 10 };
+                        // an acknowledgement waits for the proxy in case it asks for one
+                        let mut ack = vec![];
+                        ack.extend_from_slice(&code.to_le_bytes());
+                        ack.extend_from_slice(&5u32.to_le_bytes());
+                        ack.extend_from_slice(&8u32.to_le_bytes());
+                        ack.extend_from_slice(&0u64.to_le_bytes());
+                        let _ = peer.write_all(&ack);
+                        let r = if g(0) == 0 {
+                            let mut u = [0u8; 16];
+                            u[3] = 7;
+                            be.shared_object_add(&VhostUserSharedMsg { uuid: uuid::Uuid::from_bytes(u) })
+                        } else {
+                            be.shmem_unmap(&VhostUserMMap { shmid: 1, len: 4096, ..Default::default() })
+                        };
+                        // what the proxy wrote
+                        let _ = peer.set_nonblocking(true);
+                        let mut sent = vec![0u8; 256];
+                        let k = peer.read(&mut sent).unwrap_or(0);
+                        let _ = peer.set_nonblocking(false);
+                        // an acknowledgement the proxy did not read must not stay in its queue
+                        let _ = ours.set_nonblocking(true);
+                        let mut junk = [0u8; 64];
+                        let _ = ours.read(&mut junk);
+                        let _ = ours.set_nonblocking(false);
+                        match r {
+                            Err(e) if e.to_string().contains("not negotiated") => Val::s("refused"),
+                            Err(_) => Val::s("error"),
+                            Ok(_) if k >= 12 => {
+                                let flags = u32::from_le_bytes([sent[4], sent[5], sent[6], sent[7]]);
+                                Val::L(vec![Val::s("sent"), n(((flags >> 3) & 1) as u64)])
+                            }
+                            Ok(_) => Val::s("nothing-sent"),
+                        }
+                    }
+                    _ => Val::s("no-channel"),
+                }
+            }
             "panics" => n(crate::PANICS.load(std::sync::atomic::Ordering::SeqCst) - self.panics0),
             "backend_log" => {
                 let s = self.sh.lock().unwrap();
@@ -464,6 +518,7 @@ fn run_with<V: VringT<GM> + Clone + Send + Sync + 'static>(cfg: &[Val], steps: &
         acked_features: vec![],
         event_idx: vec![],
         backend_reqs: 0,
+        beq: None,
         cmds: HashMap::new(),
         done: Some(tx),
         exit_consumers: HashMap::new(),
@@ -523,7 +578,7 @@ fn run_with<V: VringT<GM> + Clone + Send + Sync + 'static>(cfg: &[Val], steps: &
     let fe = Frontend::from_stream(sock, 0x8000);
     fe.set_hdr_flags(VhostUserHeaderFlag::NEED_REPLY);
     let _ = fe.get_features();
-    let mut run = Run { daemon, fe, sh: sh.clone(), probes, rx, nthreads, fdt: FdTable::new(), evfds: HashMap::new(), masks, nq, listener_fds: HashMap::new(), panics0: crate::PANICS.load(std::sync::atomic::Ordering::SeqCst) };
+    let mut run = Run { daemon, fe, sh: sh.clone(), probes, rx, nthreads, fdt: FdTable::new(), evfds: HashMap::new(), masks, nq, listener_fds: HashMap::new(), panics0: crate::PANICS.load(std::sync::atomic::Ordering::SeqCst), beq_ends: None };
     let mut out = vec![];
     for st in steps {
         let parts = match st.as_l() {
@@ -540,7 +595,7 @@ fn run_with<V: VringT<GM> + Clone + Send + Sync + 'static>(cfg: &[Val], steps: &
         let control = !matches!(
             kind.as_str(),
             "kick" | "close_evfd" | "read_call" | "add_listener" | "fire_listener" | "queue_state" | "add_used" | "signal" | "write_mem" | "read_mem" | "regions" | "par_write"
-                | "backend_log" | "panics" | "guest_write" | "guest_read" | "file_size"
+                | "backend_log" | "panics" | "proxy_probe" | "guest_write" | "guest_read" | "file_size"
         );
         if control {
             let _ = run.fe.get_features();
